@@ -320,8 +320,10 @@ where
                 let mut incident_cell = None;
                 let mut data = None;
 
-                while let Some(key) = map.next_key()? {
-                    match key {
+                // Owned keys: borrowed `&str` keys only work with deserializers that can lend
+                // from their input (`from_str`/`from_slice`), not with `from_reader`.
+                while let Some(key) = map.next_key::<String>()? {
+                    match key.as_str() {
                         "point" => {
                             if point.is_some() {
                                 return Err(de::Error::duplicate_field("point"));
